@@ -173,6 +173,7 @@ def do_T(ops):
             return "err TraitError" if w[0] == "new" else "err ValueError"
     if t is None:
         return "none"
+    t.__dict__ = {}   # a CTrait without __dict__ does not survive __setstate__ (finding F17); not this protocol's subject
     st = t.__getstate__()
     idx = (st[0], st[1], st[2], st[4], st[11])
     t2 = CTrait(0)
@@ -290,6 +291,9 @@ def ct_catalog():
     add("Any(copy=deep)", lambda: T.Any(copy="deep"))
     add("Expression('1+1')", lambda: T.Expression("1+1"))
     add("Color-like-Trait-mapped", lambda: T.Trait("red", {"red": 0xFF0000, "blue": 0xFF}))
+    from traits.ctrait import CTrait
+    for k in (0, 1, 2, 4, 5, 6, 8):   # 3 and 7 crash on first use when bare (C18 findings)
+        add("raw:CTrait(%d)" % k, (lambda k=k: CTrait(k)))
     return cat, samples, HT
 
 
@@ -342,6 +346,8 @@ def _behaviour(ct, samples, T, how):
             r = exc_name(e)
         try:
             g = getattr(h, "q")
+            if type(g).__name__ == "UUID":
+                g = "UUID"
             g = type(g).__name__ + ":" + repr(g)[:40] if not isinstance(g, (T.HasTraits,)) and "object at" not in repr(g) \
                 else type(g).__name__
         except Exception as e:
@@ -350,16 +356,12 @@ def _behaviour(ct, samples, T, how):
     return out
 
 
-def do_CT(spec):
-    """Round-trip the CTrait of one catalogued trait definition through `how`
-    and compare its behaviour with the original's."""
-    import copy
-    import pickle
+def _build_ct(spec):
     import traits.api as T
     cat, samples, HT = ct_catalog()
-    name, how = spec["name"], spec["how"]
+    name = spec["name"]
     if name not in cat:
-        return {"skip": "not in catalogue"}
+        return None, {"skip": "not in catalogue"}, samples
     try:
         tr = cat[name]()
         via = spec.get("via", "as_ctrait")
@@ -370,10 +372,54 @@ def do_CT(spec):
             obj = cls()
             ct = obj.trait("q")
             if ct is None:
+                return None, {"skip": "no trait"}, samples
+        else:
+            from traits.ctrait import CTrait
+            from traits.trait_converters import as_ctrait
+            ct = tr if isinstance(tr, CTrait) else as_ctrait(tr) if not isinstance(tr, type) else as_ctrait(tr())
+    except Exception as e:
+        return None, {"skip": "cannot build: %s" % exc_name(e)}, samples
+    return ct, None, samples
+
+
+def do_CTINFO(spec):
+    """What kind of CTrait this is - asked BEFORE the risky operation, so that a
+    crash can be attributed to its input class."""
+    ct, skip, _ = _build_ct(spec)
+    if ct is None:
+        return skip
+    try:
+        pf = ct.property_fields if ct.is_property else None
+    except Exception:
+        pf = None
+    return {"validated_property": bool(pf is not None and pf[2] is not None), "is_property": bool(ct.is_property)}
+
+
+def do_CT(spec):
+    """Round-trip the CTrait of one catalogued trait definition through `how`
+    and compare its behaviour with the original's."""
+    import copy
+    import pickle
+    import traits.api as T
+    name, how = spec["name"], spec["how"]
+    ct, skip, samples = _build_ct(spec)
+    if ct is None:
+        return skip
+    try:
+        tr = None
+        via = "done"
+        if via == "class":
+            cls = type(T.HasTraits)("Holder", (T.HasTraits,), {"q": tr, "v": T.Int(), "d": T.Instance(T.HasTraits),
+                                                                 "vals": T.List([1, 2]),
+                                                                 "__module__": __name__})
+            obj = cls()
+            ct = obj.trait("q")
+            if ct is None:
                 return {"skip": "no trait"}
         else:
-            from traits.trait_converters import trait_cast, as_ctrait
-            ct = as_ctrait(tr) if not isinstance(tr, type) else as_ctrait(tr())
+            from traits.ctrait import CTrait
+            from traits.trait_converters import as_ctrait
+            ct = tr if isinstance(tr, CTrait) else as_ctrait(tr) if not isinstance(tr, type) else as_ctrait(tr())
     except Exception as e:
         return {"skip": "cannot build: %s" % exc_name(e)}
     stage = "getstate"
@@ -394,16 +440,15 @@ def do_CT(spec):
         elif how == "deepcopy":
             stage = "copy.deepcopy"
             ct2 = copy.deepcopy(ct)
-        elif how == "clone":
-            stage = "clone"
-            ct2 = type(ct)(0)
-            ct2.clone(ct)
         else:
             return {"skip": "how"}
     except Exception as e:
         # lambdas, local classes, modules … are legitimately unpicklable
         return {"ok": True, "roundtrip": "raises " + exc_name(e), "stage": stage}
-    st1, st2 = ct.__getstate__(), ct2.__getstate__()
+    try:
+        st1, st2 = ct.__getstate__(), ct2.__getstate__()
+    except Exception as e:
+        return {"ok": True, "roundtrip": "ok", "broken": exc_name(e) + ": " + str(e)[:80]}
     idx = lambda s: (s[0], s[1], s[2], s[4], s[6], s[8], s[11])  # noqa: E731
     res = {"ok": True, "roundtrip": "ok", "idx_same": idx(st1) == idx(st2), "idx": [list(idx(st1)), list(idx(st2))]}
     b1 = _behaviour(ct, samples, T, how)
@@ -439,6 +484,8 @@ def main():
                 ans = {"out": do_T(req["ops"])}
             elif req["k"] == "CT":
                 ans = do_CT(req["spec"])
+            elif req["k"] == "CTINFO":
+                ans = do_CTINFO(req["spec"])
             elif req["k"] == "PROG":
                 ans = do_PROG(req["prog"])
             else:
